@@ -9,6 +9,7 @@
   exercised by the harness on random DNA in every run.
 -/
 import ASV.Model.Loc
+import ASV.Model.LocOps
 namespace ASV.ProtDna
 open ASV
 
@@ -76,5 +77,51 @@ def partsInside (outer inner : Loc) : Bool :=
     for offsets `[a,b)` (nucleotides, transcription order) of gene `l` -/
 def coversSlice (l r : Loc) (a b : Nat) : Bool :=
   bases r == sliceL (bases l) a b && decide ((bases r).length = b - a) && partsInside l r
+
+/-! ### the standard exon orders (hypotheses of the `convert_*_partial` theorems) -/
+
+/-- exons listed upwards without overlap -/
+def ascDisjointB : List Part → Bool
+  | [] => true
+  | [_] => true
+  | p :: q :: r => decide (p.hi ≤ q.lo) && ascDisjointB (q :: r)
+
+/-- exons listed downwards without overlap -/
+def descDisjointB : List Part → Bool
+  | [] => true
+  | [_] => true
+  | p :: q :: r => decide (q.hi ≤ p.lo) && descDisjointB (q :: r)
+
+/-! ### rebuilding a location from consecutive sections (prepeptide write-out / re-read) -/
+
+/-- one step of the loop of `build_location_from_others` (same expression as in Model/LocOps.lean) -/
+def blfoStep (location loc : Loc) : Loc :=
+  if loc.start = location.end then
+    match location.parts.getLast?, loc.parts.head? with
+    | some lastP, some firstP =>
+      let newSub : Part := ⟨lastP.lo, firstP.hi, location.strand⟩
+      if location.parts.length > 1 || loc.parts.length > 1 then
+        .compound (location.parts.dropLast ++ [newSub] ++ loc.parts.drop 1)
+      else .simple newSub
+    | _, _ => location
+  else .compound (location.parts ++ loc.parts)
+
+/-- the step joins what really adjoins: whenever the coordinate test `loc.start == location.end` fires, the
+    last part kept so far and the first part of the next section do adjoin, upwards, on a non-reverse strand -/
+def stepSound (location loc : Loc) : Bool :=
+  decide (loc.start ≠ location.end) ||
+    (location.strand != .rev &&
+      match location.parts.getLast?, loc.parts.head? with
+      | some lastP, some firstP => decide (lastP.hi = firstP.lo)
+      | _, _ => false)
+
+/-- hypothesis of the theorem about the UNREPAIRED rebuild: every step of the fold is sound -/
+def foldSound : Loc → List Loc → Bool
+  | _, [] => true
+  | acc, x :: xs => stepSound acc x && foldSound (blfoStep acc x) xs
+
+def sectionsSound : List Loc → Bool
+  | [] => true
+  | x :: xs => foldSound x xs
 
 end ASV.ProtDna
